@@ -137,7 +137,10 @@ def run_case(case, ctx):
             z = val.to_complex()
             seq[k, c] = z if cplx else z.real
             steps[k, c] = hk[k].to_complex() if cplx else hk[k].to_complex().real
-        maxabs[c] = np.max(np.abs(seq[:, c]))
+        # conditioning scale: the individual terms may cancel in the sequence value but not in the rounding of the
+        # weighted sum, so the scale is the sum of their magnitudes at the largest step
+        maxabs[c] = max(np.max(np.abs(seq[:, c])),
+                        abs(L) + sum(abs(aj) * hkp[0][j].abs_float() for j, aj in enumerate(a)))
     if not np.all(np.isfinite(seq)):
         ctx.count('skipped_overflowing_sequence')
         return
